@@ -51,7 +51,7 @@ Fixpoint contains (s x : bytes) : bool :=
   end.
 
 (* strings.HasSuffix *)
-Definition is_suffix (x s : bytes) : bool := is_prefix (rev x) (rev s).
+Definition is_suffix (x s : bytes) : bool := is_prefix (rev_append x []) (rev_append s []).
 
 (* ---------- UTF-8 ---------- *)
 
